@@ -303,7 +303,7 @@ def corpus_grammars(run):
     import glob, os
     gs = sorted(glob.glob(os.path.join(run.repo, "example", "*", "*.bnf")) + glob.glob(os.path.join(run.repo, "internal", "test", "*", "*.bnf")))
     gs += sorted(g for g in glob.glob(os.path.join(os.path.dirname(os.path.dirname(__file__)), "carriers", "*.bnf")) if not g.endswith("wide.bnf"))
-    gs += sorted(g for g in glob.glob(os.path.join(os.path.dirname(os.path.dirname(__file__)), "corpus", "*.bnf")) if "backquote" not in g and "reserved_" not in g)
+    gs += sorted(g for g in glob.glob(os.path.join(os.path.dirname(os.path.dirname(__file__)), "corpus", "*.bnf")) if "reserved_" not in g)
     return gs
 
 
